@@ -256,9 +256,13 @@ package protocol
 //@   ensures C13.parser.request: parserInv(self)
 //@   ensures C14.parser.carry: parserCarry(self)
 // C14 (framing independence, reply side): the empty argument of a zero-length bulk is added once, when its terminating
-// line feed is consumed - never while the terminator is still outstanding (a CRLF cut between two reads must not add it twice)
+// line feed is consumed - never while the terminator is still outstanding (a CRLF cut between two reads must not add it twice);
+// the piece of a status or error line that one read contributes to the text never ends in a delimiter byte (CR, LF, and for the
+// error type the separating space): a line cut right before its CRLF used to come out as "OK\r" (repaired defect)
 //@ func (*TextParser).ParseResponse
 //@   requires self != nil
+//@   loop#5 invariant C14.parser.status-text: startBufIndex <= self.bufIndex && (endBufIndex == startBufIndex - 1 || (startBufIndex <= endBufIndex && endBufIndex < self.bufIndex && self.rbuf[endBufIndex] != 13 && self.rbuf[endBufIndex] != 10))
+//@   loop#6 invariant C14.parser.status-text: startBufIndex <= self.bufIndex && (endBufIndex == startBufIndex - 1 || (startBufIndex <= endBufIndex && endBufIndex < self.bufIndex && self.rbuf[endBufIndex] != 13 && self.rbuf[endBufIndex] != 10 && self.rbuf[endBufIndex] != 32))
 //@   at call append assert C14.parser.empty-once: implies(self.stage == 4 && len(arg1) == 1 && len(arg1[0]) == 0 && self.cargLen == 0, self.rbuf[self.bufIndex] == 10)
 //@ func (*Command).Decode
 //@   requires self != nil && len(buf) >= 64
